@@ -586,3 +586,35 @@ def run_real_match(G, t: Tree, cands: list[str], pats, flags: int, exclude=None,
 
 def match_line(t: Tree, flags: int, pe: str, ee: str, cands: list[str]) -> str:
     return f'matchreal {flags} 0 {t.enc} {t.cwd} {pe} {ee} ' + ' '.join(common.enc(c) for c in cands)
+
+
+# ------------------------------------------------------------------ trigger signature of known finding D17
+
+def d17_shape(G, t: Tree, pats, flags: int, r: str) -> bool:
+    """KF-D17 (results below something that is not a directory: `f/.`, `f/..`, `f/**` -> `f/`) needs a pattern with a FURTHER
+    segment after the one that named the non-directory.  A bare `f/` returned for a regular file `f` does not have that shape."""
+    import bracex
+    plist = [pats] if isinstance(pats, (str, bytes)) else list(pats)
+    pieces: list[str] = []
+    for q in plist:
+        if isinstance(q, bytes):
+            q = q.decode('latin-1')
+        try:
+            ex = list(bracex.iexpand(q, keep_escapes=True, limit=200)) if flags & G.BRACE else [q]
+        except Exception:  # noqa: BLE001
+            ex = [q]
+        for e in ex:
+            pieces.extend(e.split('|') if flags & G.SPLIT else [e])
+    maxsegs = max((len([sg for sg in q.split('/') if sg]) for q in pieces), default=0)
+    if flags & G.MATCHBASE:
+        maxsegs += 1
+    comps = [k for k in r.rstrip('/').split('/')]
+    start = 1 if r.startswith('/') else 0
+    for j in range(1, len(comps) + 1):
+        pre = '/'.join(comps[:j])
+        if not pre:
+            continue
+        full = pre if r.startswith('/') else os.path.join(t.root, pre)
+        if os.path.lexists(full) and not os.path.isdir(full):
+            return maxsegs > (j - start)
+    return True      # nothing on the way is a non-directory: a different kind of non-existence; keep the old attribution
